@@ -1,12 +1,13 @@
-(* The balancer on instructions with SEVERAL micro-ops, exact rationals (QNum), ONE pass.
-   Part A: one balancing loop on an arbitrary row, now WITH the `differences` list (b_df): as long as rule 1 never
-           meets an exact 0 (the model's b_exact0 counter does not move), b_df stays aligned with b_ind and holds,
-           for every index still balanced, share + (cell now) - (cell before the loop).  Consequence: the loop takes
-           from a cell at most the micro-op's own share + 1/200, or zeroes a cell that held less than share + 1/100.
+(* The balancer on instructions with SEVERAL micro-ops, exact rationals (QNum), ONE pass, model with the REPAIRED rule 1
+   (the `== 0.0` branch filters `differences` together with `indices`: zipfilter_res).
+   Part A: one balancing loop on an arbitrary row, WITH the `differences` list (b_df): b_df stays aligned with b_ind and
+           holds, for every index still balanced, share + (cell now) - (cell before the loop) -- also when rule 1 meets an
+           exact 0 (the exact-zero counter is no hypothesis any more).  Consequence (Post): the loop takes from a cell at
+           most the micro-op's own share + 1/200, or zeroes a cell that held less than share + 1/100.
    Part B: the fold over the micro-ops of one instruction (balance_uops): row total exact, cells >= 0,
-           Feasible with slack 1/100 per (micro-op, port).
-   Part C: refutations (total drift / slack 1/200 / exact zeros) by vm_compute witnesses.
-   Part D: one pass over a kernel without alternatives. *)
+           Feasible with slack 1/100 per (micro-op, port)  (balance_instr_feasible, balance_instr_consequences).
+   Part C (refutations by vm_compute witnesses) is in Proofs/BalanceRefute.v, Part D (one pass over a kernel without
+   alternatives) and the C02 corollary in Proofs/BalancePass.v, the sharper Hall slack in Proofs/HallSharp.v. *)
 From Coq Require Import QArith Qround Qfield Lqa Lia List Bool Arith String ZArith.
 From OV Require Import Model.Num Model.Pressure Proofs.ListSpec Proofs.Feasible Proofs.PressureQ Proofs.BalanceFrame
   Proofs.BalanceSingle.
@@ -128,6 +129,38 @@ Proof.
     rewrite (IH r i x eq_refl ND' NE Fx (fun p Hp => Oth p (or_intror Hp))). reflexivity.
 Qed.
 
+Lemma zipfilter_res_all (f : nat -> res bool) : forall l (d d' : list Q),
+  zipfilter_res f l d = Ok d' -> length d = length l -> (forall p, In p l -> f p = Ok true) -> d' = d.
+Proof.
+  induction l as [|p l IH]; intros d d' H L A0; destruct d as [|x d]; try discriminate.
+  - simpl in H. inversion H; reflexivity.
+  - cbn [zipfilter_res] in H. rewrite (A0 p (or_introl eq_refl)) in H. cbn [bind] in H.
+    destruct (zipfilter_res f l d) as [r|] eqn:E; cbn [bind] in H; [|discriminate].
+    inversion H; subst. f_equal. apply IH; [exact E | simpl in L; lia |].
+    intros q Hq. apply A0. right. exact Hq.
+Qed.
+
+(* the zip-comprehension of the repaired rule 1 drops the entry at the position of the one dropped port *)
+Lemma zipfilter_res_del (f : nat -> res bool) : forall l (d d' : list Q) i x,
+  zipfilter_res f l d = Ok d' -> length d = length l -> NoDup l -> nth_error l i = Some x ->
+  f x = Ok false -> (forall p, In p l -> p <> x -> f p = Ok true) -> del_nth d i = Ok d'.
+Proof.
+  induction l as [|y l IH]; intros d d' i x H L ND NE Fx Oth; [destruct i; discriminate|].
+  destruct d as [|z d]; [discriminate|].
+  inversion ND as [|? ? Hnotin ND']; subst. cbn [zipfilter_res] in H.
+  destruct i as [|i]; simpl in NE.
+  - inversion NE; subst y. rewrite Fx in H. cbn [bind] in H.
+    destruct (zipfilter_res f l d) as [r|] eqn:E; cbn [bind] in H; [|discriminate].
+    inversion H; subst d'. simpl. f_equal. symmetry. apply (zipfilter_res_all f l d r E); [simpl in L; lia|].
+    intros p Hp. apply Oth; [right; exact Hp|]. intros C. subst. contradiction.
+  - assert (Hx : In x l) by (eapply nth_error_In; eassumption).
+    assert (Ny : y <> x) by (intros C; subst; contradiction).
+    rewrite (Oth y (or_introl eq_refl) Ny) in H. cbn [bind] in H.
+    destruct (zipfilter_res f l d) as [r|] eqn:E; cbn [bind] in H; [|discriminate].
+    inversion H; subst d'. simpl.
+    rewrite (IH d r i x E ltac:(simpl in L; lia) ND' NE Fx (fun p Hp => Oth p (or_intror Hp))). reflexivity.
+Qed.
+
 Lemma nth_map_const {A} (x : Q) : forall (l : list A) j, (j < length l)%nat -> nth j (map (fun _ => x) l) 0 = x.
 Proof. induction l as [|a l IH]; intros [|j] H; simpl in *; try lia; [reflexivity | apply IH; lia]. Qed.
 
@@ -212,7 +245,7 @@ Section OneUop.
   (* ---- rule 1: what exactly happens (shape of the entries after the +-INC move as in BalanceSingle.rule1_inv) ---- *)
   Lemma rule1_shape ps mn pp1 ind ip2 df2 mini maxi pp2 ind2 ip3 df3 ex :
     NoDup ind -> (forall p, In p ind -> (p < length pp1)%nat) ->
-    vals_at pp1 ind = ip2 ->
+    vals_at pp1 ind = ip2 -> length df2 = length ind ->
     index_of QNum ps mn = Ok mini -> (mini < length ind)%nat -> (maxi < length ind)%nat ->
     (forall j, (j < length ind)%nat -> j <> maxi -> 1 # 200 < nth j ip2 0) ->
     (mini <> maxi -> (1 # 200) + (1 # 100) < nth mini ip2 0) ->
@@ -221,16 +254,16 @@ Section OneUop.
     rule1 QNum ps mn pp1 ind ip2 df2 = Ok (pp2, ind2, ip3, df3, ex) ->
     (pp2 = pp1 /\ ind2 = ind /\ ip3 = ip2 /\ df3 = df2 /\ ex = 0%nat /\
      forall j, (j < length ind)%nat -> 1 # 200 < nth j ip2 0)
-    \/ (ex = 0%nat /\ mini <> maxi /\ nth maxi ip2 0 <= 1 # 200 /\
+    \/ (mini <> maxi /\ nth maxi ip2 0 <= 1 # 200 /\
         del_nth ind maxi = Ok ind2 /\
-        (exists dfa, add_at QNum df2 mini (nth maxi ip2 0) = Ok dfa /\ del_nth dfa maxi = Ok df3) /\
+        (exists dfa, length dfa = length df2 /\ nth mini dfa 0 == nth mini df2 0 + nth maxi ip2 0 /\
+                     (forall j, j <> mini -> nth j dfa 0 = nth j df2 0) /\ del_nth dfa maxi = Ok df3) /\
         length pp2 = length pp1 /\
-        nth (nth maxi ind 0%nat) pp2 0 = 0 /\
+        nth (nth maxi ind 0%nat) pp2 0 == 0 /\
         nth (nth mini ind 0%nat) pp2 0 == nth (nth mini ind 0%nat) pp1 0 + nth maxi ip2 0 /\
-        (forall p, p <> nth maxi ind 0%nat -> p <> nth mini ind 0%nat -> nth p pp2 0 = nth p pp1 0))
-    \/ ex = 1%nat.
+        (forall p, p <> nth maxi ind 0%nat -> p <> nth mini ind 0%nat -> nth p pp2 0 = nth p pp1 0)).
   Proof.
-    intros ND RG VA IM Lmini Lmaxi Both Bmini Bsame Bmax H.
+    intros ND RG VA LDF IM Lmini Lmaxi Both Bmini Bsame Bmax H.
     assert (Lip : length ip2 = length ind) by (rewrite <- VA; apply vals_at_length).
     unfold rule1 in H.
     destruct (list_min QNum ip2) as [m|] eqn:E0; cbn [bind] in H; [|discriminate].
@@ -258,11 +291,33 @@ Section OneUop.
     { unfold pmini, pmax. intros C. apply NE2. apply (proj1 (NoDup_nth ind 0%nat) ND mini maxi Lmini Lmaxi C). }
     change (zero QNum) with 0 in H.
     destruct (negb (neqb QNum m 0)) eqn:NZ.
-    2:{ right. right. cbn [bind] in H.
-        destruct (filter_res _ ind) as [ind2'|] in H; cbn [bind] in H; [|discriminate].
-        destruct (getmany pp1 ind2') as [ip2'|]; cbn [bind] in H; [|discriminate].
-        inversion H; reflexivity. }
-    right. left.
+    2:{ (* drained to exactly 0 (repaired rule): the port leaves ind, its entry leaves the differences list *)
+        right.
+        assert (M0 : m == 0) by (apply negb_false_iff in NZ; apply qeqb_true in NZ; exact NZ).
+        destruct (zipfilter_res _ ind df2) as [dfz|] eqn:ZF; cbn [bind] in H; [|discriminate].
+        destruct (filter_res _ ind) as [ind2'|] eqn:F2 in H; cbn [bind] in H; [|discriminate].
+        destruct (getmany pp1 ind2') as [ip2'|] eqn:GM; cbn [bind] in H; [|discriminate].
+        inversion H; subst pp2 ind2 ip3 df3 ex. clear H.
+        assert (Pmax : nth pmax pp1 0 = m).
+        { unfold pmax. rewrite <- (vals_at_nth pp1 ind maxi Lmaxi), VA. exact Ejm. }
+        pose proof (port_view (fun x => 1 # 200 < x) pp1 ind ip2 maxi VA Both) as Poth. cbv beta in Poth.
+        fold pmax in Poth.
+        assert (Fmax : (v <- nth_res pp1 pmax ;; Ok (nltb QNum (zero QNum) v)) = Ok false).
+        { rewrite (nth_res_nth pp1 pmax 0) by (apply RG; exact Ipmax). cbn [bind]. f_equal. rewrite Pmax.
+          destruct (nltb QNum (zero QNum) m) eqn:C; [|reflexivity]. apply qltb_true in C.
+          change (zero QNum) with 0 in C. lra. }
+        assert (Foth : forall p, In p ind -> p <> pmax ->
+                  (v <- nth_res pp1 p ;; Ok (nltb QNum (zero QNum) v)) = Ok true).
+        { intros p Hp Hne. rewrite (nth_res_nth pp1 p 0) by (apply RG; exact Hp). cbn [bind]. f_equal.
+          apply qltb_true. specialize (Poth p Hp Hne). change (zero QNum) with 0. lra. }
+        assert (NEmax : nth_error ind maxi = Some pmax) by (unfold pmax; apply nth_error_nth'; exact Lmaxi).
+        rewrite <- Ejm in *.
+        split; [exact NE2|]. split; [exact Hm|].
+        split; [exact (filter_res_del _ ind ind2' maxi pmax F2 ND NEmax Fmax Foth)|].
+        split; [exists df2; split; [reflexivity|]; split; [rewrite M0; ring|]; split; [reflexivity|];
+                exact (zipfilter_res_del _ ind df2 dfz maxi pmax ZF LDF ND NEmax Fmax Foth)|].
+        split; [reflexivity|]. split; [rewrite Pmax; exact M0|]. split; [rewrite M0; ring|]. reflexivity. }
+    right.
     rewrite IM in H. cbn [bind] in H.
     destruct (add_at QNum ip2 mini m) as [ipa|] eqn:AA; cbn [bind] in H; [|discriminate].
     destruct (list_min QNum ipa) as [m2|] eqn:E2; cbn [bind] in H; [|discriminate].
@@ -308,8 +363,10 @@ Section OneUop.
     subst zi.
     destruct (set_nth_ok _ _ _ _ 0 SZ) as (Lppb & Nb & Ob).
     rewrite <- Ejm in *.
-    split; [reflexivity|]. split; [exact NE2|]. split; [exact Hm|].
-    split; [|split; [exists dfa; split; assumption|split; [congruence|split; [exact Nb|split]]]].
+    split; [exact NE2|]. split; [exact Hm|].
+    destruct (add_at_spec _ _ _ _ AD) as (_ & LAD & WAmini & WAoth & _).
+    split; [|split; [exists dfa; split; [exact LAD|]; split; [exact WAmini|]; split; [exact WAoth | exact DD]
+                    |split; [congruence|split; [rewrite Nb; reflexivity|split]]]].
     - (* the comprehension drops exactly the zeroed port *)
       apply (filter_res_del _ ind ind2' maxi pmax F2 ND).
       + unfold pmax. apply nth_error_nth'. exact Lmaxi.
@@ -373,12 +430,12 @@ Section OneUop.
 
   (* ---- one iteration ---- *)
   Lemma bstep_minv k idx s s' :
-    MInv s -> bstep QNum k idx s = Ok s' -> b_exact0 s' = b_exact0 s ->
+    MInv s -> bstep QNum k idx s = Ok s' ->
     MInv s' /\ incl (b_ind s') (b_ind s) /\ length (b_pp s') = length (b_pp s) /\
     lsum (b_pp s') == lsum (b_pp s) /\
     (forall p, In p (b_ind s) -> In p (b_ind s') \/ Post (b_pp s') p).
   Proof.
-    intros (I & (LD & AL) & BD) H EX.
+    intros (I & (LD & AL) & BD) H.
     destruct (bstep_inv _ _ _ _ I H) as (I' & Inc & Lpp & _ & Sum).
     destruct I as ((ND & NE & RG & V) & LPS).
     unfold bstep in H.
@@ -396,7 +453,6 @@ Section OneUop.
     destruct (rule2 QNum pp2 ind2 ip3 df3) as [[[ind3 ip4] df4]|] eqn:R2; cbn [bind] in H; [|discriminate].
     destruct (getmany _ ind3) as [ps'|] eqn:GP in H; cbn [bind] in H; [|discriminate].
     inversion H; subst s'. clear H. cbn [b_ind b_pp b_ip b_ps b_df b_exact0] in *.
-    assert (ex = 0%nat) by lia. subst ex. clear EX.
     rewrite INC_Q in *.
     pose proof IMN as IMN'. apply index_of_lt in IMX. apply index_of_lt in IMN. rewrite LPS in IMX, IMN.
     assert (Lip : length (b_ip s) = length (b_ind s)) by (rewrite V; apply vals_at_length).
@@ -417,9 +473,9 @@ Section OneUop.
       destruct (Nat.eqb j mini); destruct (Nat.eqb j maxi); lra. }
     set (pmax := nth maxi (b_ind s) 0%nat) in *.
     assert (Ipmax : In pmax (b_ind s)) by (apply nth_In; exact IMX).
-    destruct (rule1_shape _ _ _ _ _ _ _ _ _ _ _ _ _ ND RG1 VA1 IMN' IMN IMX Both Bmini Bsame Bmax R1)
-      as [(E1 & E2 & E3 & E4 & _ & Ball)|[(_ & NE2 & Hm & DI & (dfa & AD & DD) & Lpp2 & Zmax & Vpmini & Vrest)|C]];
-      [| |discriminate].
+    assert (Ldf2' : length df2 = length (b_ind s)) by lia.
+    destruct (rule1_shape _ _ _ _ _ _ _ _ _ _ _ _ _ ND RG1 VA1 Ldf2' IMN' IMN IMX Both Bmini Bsame Bmax R1)
+      as [(E1 & E2 & E3 & E4 & _ & Ball)|(NE2 & Hm & DI & (dfa & Lda0 & Wmini & Woth & DD) & Lpp2 & Zmax & Vpmini & Vrest)].
     - (* rule 1 did not fire *)
       subst pp2 ind2 ip3 df3.
       assert (Ldf2 : length df2 = length (b_ind s)) by lia.
@@ -440,20 +496,18 @@ Section OneUop.
           -- pose proof (AL1 maxi IMX) as A1. fold pmax in A1. lra.
     - (* rule 1 handed the residual over and zeroed the cell; afterwards every difference is > 1/200 *)
       assert (ALa : AlignedX maxi pp2 (b_ind s) dfa).
-      { intros j Hj Hne. destruct (add_at_spec _ _ _ _ AD) as (_ & _ & Wmini & Woth & _).
+      { intros j Hj Hne.
         assert (Npj : nth j (b_ind s) 0%nat <> pmax).
         { unfold pmax. intros C. apply Hne. apply (proj1 (NoDup_nth (b_ind s) 0%nat) ND j maxi Hj IMX C). }
         destruct (Nat.eq_dec j mini) as [e|n].
         - subst j. rewrite Wmini, (AL1 mini IMN). unfold dcell. rewrite Vpmini. ring.
         - rewrite (Woth j n), (AL1 j Hj). unfold dcell. rewrite (Vrest _ Npj); [reflexivity|].
           intros C. apply n. apply (proj1 (NoDup_nth (b_ind s) 0%nat) ND j mini Hj IMN C). }
-      assert (Lda : length dfa = length (b_ind s)).
-      { destruct (add_at_spec _ _ _ _ AD) as (_ & La & _). lia. }
+      assert (Lda : length dfa = length (b_ind s)) by lia.
       assert (AL3 : Aligned pp2 ind2 df3) by (eapply aligned_del; eassumption).
       assert (BD3 : forall j, (j < length ind2)%nat -> 1 # 200 < nth j df3 0).
       { destruct AL3 as (L3 & _). rewrite <- L3.
         apply (del_nth_forall 0 (fun x => 1 # 200 < x) _ _ _ DD). intros j Hj Hne.
-        destruct (add_at_spec _ _ _ _ AD) as (_ & _ & Wmini & Woth & _).
         destruct (Nat.eq_dec j mini) as [e|n].
         - subst j. rewrite Wmini. specialize (Dmini NE2). lra.
         - rewrite (Woth j n). apply Doth; [lia | exact Hne]. }
@@ -472,7 +526,7 @@ Section OneUop.
       split; [|split; [exact Inc|split; [exact Lpp|split; [exact Sum|]]]].
       + split; [exact I'|]. split; [exact AL3 | exact BD3].
       + intros p Hp. destruct (del_nth_In 0%nat _ _ _ DI p Hp) as [i|e]; [left; exact i|]. right.
-        fold pmax in e. subst p. left. fold pmax in Zmax. rewrite Zmax. split; [reflexivity|].
+        fold pmax in e. subst p. left. fold pmax in Zmax. split; [exact Zmax|].
         pose proof (AL1 maxi IMX) as A1. fold pmax in A1. unfold dcell in A1.
         assert (E : nth pmax pp1 0 = nth maxi ip2 0).
         { unfold pmax. rewrite <- (vals_at_nth pp1 (b_ind s) maxi IMX), VA1. reflexivity. }
@@ -524,17 +578,16 @@ Qed.
 
 (* ---- the loop ---- *)
 Lemma bloop_minv pp0 sh k idx : forall n s s',
-  MInv pp0 sh s -> bloop QNum n k idx s = Ok s' -> b_exact0 s' = b_exact0 s ->
+  MInv pp0 sh s -> bloop QNum n k idx s = Ok s' ->
   MInv pp0 sh s' /\ length (b_pp s') = length (b_pp s) /\ lsum (b_pp s') == lsum (b_pp s) /\
   (forall p, In p (b_ind s) -> Post pp0 sh (b_pp s') p).
 Proof.
-  induction n as [|n IH]; intros s s' I H EX.
+  induction n as [|n IH]; intros s s' I H.
   - simpl in H. inversion H; subst s'. split; [exact I|]. split; [reflexivity|]. split; [reflexivity|].
     apply MInv_post. exact I.
   - destruct (bloop_cases _ _ _ _ _ _ H) as [(s1 & B & L)|E].
-    + pose proof (bstep_exact0_mono _ _ _ _ _ B) as M1. pose proof (bloop_exact0_mono _ _ _ _ _ _ L) as M2.
-      destruct (bstep_minv pp0 sh _ _ _ _ I B ltac:(lia)) as (I1 & Inc1 & L1 & S1 & P1).
-      destruct (IH _ _ I1 L ltac:(lia)) as (I2 & L2 & S2 & P2).
+    + destruct (bstep_minv pp0 sh _ _ _ _ I B) as (I1 & Inc1 & L1 & S1 & P1).
+      destruct (IH _ _ I1 L) as (I2 & L2 & S2 & P2).
       destruct (bloop_frame QNum 0 _ _ _ _ _ L) as (_ & (_ & O)).
       split; [exact I2|]. split; [congruence|]. split; [rewrite S2; exact S1|].
       intros p Hp. destruct (in_dec Nat.eq_dec p (b_ind s1)) as [i|ni]; [apply P2; exact i|].
@@ -559,11 +612,11 @@ Qed.
 (* a micro-op (c, ps) with pairwise different ports, share > 1/200, on a row whose cells at those ports are > 1/200,
    balanced without meeting an exact zero (counter e = 0): total kept, nothing else touched, and every port of the
    micro-op ends in one of the two ways of Post *)
-Theorem balance_uop_multi ports k idx pp c ps ind pp' :
+Theorem balance_uop_multi ports k idx pp c ps ind pp' e :
   indices_of ports ps = Ok ind -> NoDup ind ->
   1 # 200 < c / inject_Z (Z.of_nat (length ps)) ->
   (forall p, In p ind -> 1 # 200 < nth p pp 0) ->
-  balance_uop QNum ports k idx pp (c, ps) = Ok (pp', 0%nat) ->
+  balance_uop QNum ports k idx pp (c, ps) = Ok (pp', e) ->
   lsum pp' == lsum pp /\ length pp' = length pp /\
   (forall j, ~ In j ind -> nth j pp' 0 = nth j pp 0) /\
   (forall p, In p ind -> Post pp (c / inject_Z (Z.of_nat (length ps))) pp' p).
@@ -590,7 +643,7 @@ Proof.
       - split; [rewrite map_length; lia|]. intros j Hj. rewrite nth_map_const by lia.
         unfold dcell. cbn [ndiv nofZ QNum]. rewrite Qred_correct. fold sh. ring.
       - intros j Hj. rewrite nth_map_const by lia. cbn [ndiv nofZ QNum]. rewrite Qred_correct. exact SH. }
-    destruct (bloop_minv pp sh k idx _ _ _ I0 B E2) as (_ & L' & S & P).
+    destruct (bloop_minv pp sh k idx _ _ _ I0 B) as (_ & L' & S & P).
     split; [exact S|]. split; [exact L|]. split; [exact O|]. exact P.
 Qed.
 
@@ -721,24 +774,22 @@ Proof.
   - eapply IH; eassumption.
 Qed.
 
-Lemma balance_uops_rinv ports idx : forall todo k done pp ex pp',
+Lemma balance_uops_rinv ports idx : forall todo k done pp ex pp' e,
   (forall u, In u todo -> wf_names ports u) ->
   (forall c ps, In (c, ps) todo -> (2 <= length ps)%nat ->
      qn (length done + length todo) * (1 # 200) < c / inject_Z (Z.of_nat (length ps))) ->
   length pp = length ports ->
   (forall p, 0 <= nth p pp 0) ->
   RInv (length ports) done (map (toU ports) todo) (qnth pp) ->
-  balance_uops QNum ports k idx pp todo ex = Ok (pp', ex) ->
+  balance_uops QNum ports k idx pp todo ex = Ok (pp', e) ->
   RInv (length ports) (done ++ map (toU ports) todo) [] (qnth pp') /\ length pp' = length pp /\
   (forall p, 0 <= nth p pp' 0).
 Proof.
-  induction todo as [|[c ps] rest IH]; intros k done pp ex pp' WF SHR LP NN RI H.
+  induction todo as [|[c ps] rest IH]; intros k done pp ex pp' e WF SHR LP NN RI H.
   - simpl in H. inversion H; subst pp'. cbn [map]. rewrite app_nil_r. auto.
   - pose proof (balance_uops_resolves _ _ _ _ _ _ _ _ H) as RES.
     cbn [balance_uops] in H.
     destruct (balance_uop QNum ports k idx pp (c, ps)) as [[pp1 e1]|] eqn:B; cbn [bind] in H; [|discriminate].
-    pose proof (balance_uops_exact0_mono _ _ _ _ _ _ _ _ _ H) as MONO.
-    assert (e1 = 0%nat) by lia. subst e1. rewrite Nat.add_0_r in H.
     destruct (RES c ps (or_introl eq_refl)) as (ind & IO).
     destruct (indices_of_resolve QNum _ _ _ IO) as (RS & LI).
     destruct (WF (c, ps) (or_introl eq_refl)) as (Hc & ND & Hne). cbn [fst snd] in Hc, ND, Hne. rewrite RS in ND.
@@ -759,7 +810,7 @@ Proof.
       RInv (length ports) (done ++ map (toU ports) ((c, ps) :: rest)) [] (qnth pp') /\ length pp' = length pp /\
       (forall p, 0 <= nth p pp' 0)).
     { intros a RA' L1 NN1.
-      destruct (IH (set_pp k idx pp1) (done ++ [u]) pp1 ex pp') as (R' & L' & N'); try assumption.
+      destruct (IH (set_pp k idx pp1) (done ++ [u]) pp1 (ex + e1)%nat pp' e) as (R' & L' & N'); try assumption.
       - intros x Hx. apply WF. right. exact Hx.
       - intros c' ps' I' L2. rewrite app_length. cbn [length].
         replace (length done + 1 + length rest)%nat with (length done + S (length rest))%nat by lia.
@@ -801,7 +852,7 @@ Proof.
       { intros p Hp. pose proof (CELL p Hp) as C. unfold qnth in C. rewrite C.
         pose proof (PS p Hp). pose proof (uniform_nonneg (map (toU ports) rest) p WFrest). lra. }
       assert (SH1 : 1 # 200 < sh) by lra.
-      destruct (balance_uop_multi _ _ _ _ _ _ _ _ IO ND SH1 GT B) as (S1 & L1 & O1 & PO). fold sh in PO.
+      destruct (balance_uop_multi _ _ _ _ _ _ _ _ _ IO ND SH1 GT B) as (S1 & L1 & O1 & PO). fold sh in PO.
       set (a := fun p => ushare u p + qnth pp1 p - qnth pp p).
       apply (STEP a); [|exact L1|].
       * apply (rinv_extend _ _ _ _ _ _ _ _ (conj R1 (conj R2 (conj R3 (conj R4 R5))))).
@@ -824,7 +875,7 @@ Proof.
            destruct (RES c' qs (or_intror Hy)) as (ind' & IO').
            destruct (indices_of_resolve QNum _ _ _ IO') as (RS' & LI').
            unfold toU in *. cbn [up uc fst snd] in *. rewrite RS' in *.
-           destruct (Nat.eq_dec (length ind') 1) as [e|n]; [exact e|]. exfalso.
+           destruct (Nat.eq_dec (length ind') 1) as [e1x|n]; [exact e1x|]. exfalso.
            assert (L2' : (2 <= length qs)%nat).
            { destruct qs as [|? [|? ?]]; [congruence | simpl in LI'; lia | simpl; lia]. }
            pose proof (SHR c' qs (or_intror Hy) L2') as SH'.
@@ -912,14 +963,15 @@ Proof.
 Qed.
 
 (* After balancing ALL micro-ops of ONE instruction (balance_uops), in ANY kernel context k / position idx, starting
-   from a row that is the uniform split of its micro-ops: if the run returns Ok and the exact-zero counter did not
-   move, the row is a feasible split of the instruction's micro-ops with slack 1/100 per (micro-op, port), every
-   cell is >= 0 and the row keeps its length. *)
-Theorem balance_instr_feasible_gen ports k idx us pp ex pp' :
+   from a row that is the uniform split of its micro-ops: if the run returns Ok -- whatever the exact-zero counter
+   says: the repaired rule 1 keeps `differences` aligned with `indices` in the `== 0.0` branch too -- the row is a
+   feasible split of the instruction's micro-ops with slack 1/100 per (micro-op, port), every cell is >= 0 and the row
+   keeps its length. *)
+Theorem balance_instr_feasible_gen ports k idx us pp ex pp' e :
   instr_okb ports us = true ->
   length pp = length ports ->
   (forall p, (p < length ports)%nat -> qnth pp p == uniform (map (toU ports) us) p) ->
-  balance_uops QNum ports k idx pp us ex = Ok (pp', ex) ->
+  balance_uops QNum ports k idx pp us ex = Ok (pp', e) ->
   Feasible (length ports) (1 # 100) (map (toU ports) us) (qnth pp') /\
   length pp' = length ports /\ (forall p, 0 <= nth p pp' 0).
 Proof.
@@ -934,7 +986,7 @@ Proof.
       apply uniform_nonneg. intros x Hx. apply in_map_iff in Hx. destruct Hx as (y & E' & Hy). subst x.
       destruct (WF y Hy) as (Hy0 & _). exact Hy0.
     - rewrite nth_overflow by exact L. lra. }
-  destruct (balance_uops_rinv ports idx us k [] pp ex pp' WF) as (R & L & N).
+  destruct (balance_uops_rinv ports idx us k [] pp ex pp' e WF) as (R & L & N).
   - intros c ps I L2. cbn [length Nat.add]. exact (proj2 (SPEC (c, ps) I) L2).
   - exact LP.
   - exact NN.
@@ -944,10 +996,10 @@ Proof.
 Qed.
 
 (* the same from the model's average_port_pressure *)
-Theorem balance_instr_feasible ports k idx us pp ex pp' :
+Theorem balance_instr_feasible ports k idx us pp ex pp' e :
   instr_okb ports us = true ->
   avg_pressure_list QNum ports us = Ok pp ->
-  balance_uops QNum ports k idx pp us ex = Ok (pp', ex) ->
+  balance_uops QNum ports k idx pp us ex = Ok (pp', e) ->
   Feasible (length ports) (1 # 100) (map (toU ports) us) (qnth pp') /\
   length pp' = length ports /\ (forall p, 0 <= nth p pp' 0).
 Proof.
@@ -955,15 +1007,15 @@ Proof.
   assert (WF : forall u, In u us -> wf_names ports u).
   { intros u Hu. apply (uop_okb_spec ports (length us)). unfold instr_okb in OK. rewrite forallb_forall in OK. apply OK. exact Hu. }
   destruct (avg_pressure_is_uniform _ _ _ AV WF) as (L & V).
-  apply (balance_instr_feasible_gen ports k idx us pp ex pp' OK L (fun p _ => V p) H).
+  apply (balance_instr_feasible_gen ports k idx us pp ex pp' e OK L (fun p _ => V p) H).
 Qed.
 
 (* ... hence (consequences of Feasible, Proofs/Feasible.v): non-negative, supported on admissible ports, total exact,
    Hall's condition for EVERY port set within 1/100 per (micro-op not confined to the set, port of the set) *)
-Theorem balance_instr_consequences ports k idx us pp ex pp' :
+Theorem balance_instr_consequences ports k idx us pp ex pp' e :
   instr_okb ports us = true ->
   avg_pressure_list QNum ports us = Ok pp ->
-  balance_uops QNum ports k idx pp us ex = Ok (pp', ex) ->
+  balance_uops QNum ports k idx pp us ex = Ok (pp', e) ->
   (forall p, 0 <= qnth pp' p) /\
   (forall p, (p < length ports)%nat ->
      (forall u, (u < length us)%nat -> ~ In p (up (uget (map (toU ports) us) u))) -> qnth pp' p == 0) /\
@@ -971,7 +1023,7 @@ Theorem balance_instr_consequences ports k idx us pp ex pp' :
   (forall S, confined_cycles S (map (toU ports) us) - (1 # 100) * card (length ports) S * nonconfined S (map (toU ports) us)
              <= load (length ports) S (qnth pp')).
 Proof.
-  intros OK AV H. destruct (balance_instr_feasible ports k idx us pp ex pp' OK AV H) as (F & L & N).
+  intros OK AV H. destruct (balance_instr_feasible ports k idx us pp ex pp' e OK AV H) as (F & L & N).
   split; [exact N|]. split; [|split].
   - intros p Hp Hno. apply (feasible_support _ _ _ _ F p Hp). rewrite map_length. exact Hno.
   - rewrite (feasible_total _ _ _ _ F). rewrite map_length. reflexivity.
